@@ -58,7 +58,9 @@ func (i *handler) serveIpnsRecord(ctx context.Context, w http.ResponseWriter, r 
 	// TTL is not present, we use the Last-Modified tag. We are tracking IPNS
 	// caching on: https://github.com/ipfs/kubo/issues/1818.
 	// TODO: use addCacheControlHeaders once #1818 is fixed.
-	recordEtag := strconv.FormatUint(xxhash.Sum64(rawRecord), 32)
+	// An entity-tag is a quoted string (RFC 9110, section 8.8.3). Without the
+	// quotes no If-None-Match value can match it, see etagMatch.
+	recordEtag := `"` + strconv.FormatUint(xxhash.Sum64(rawRecord), 32) + `"`
 	w.Header().Set("Etag", recordEtag)
 
 	// Terminate early if Etag matches. We cannot rely on handleIfNoneMatch since
